@@ -287,7 +287,16 @@ CONSTANTS Mode,     \* "pairs" (C04) or "objects" (C03)
 VARIABLES stage, ta, tb, ob
 vars == <<stage, ta, tb, ob>>
 
-Space == (IF Depth = 1 THEN D1 ELSE D1 \cup D2Static) \cup TDTerms
+\* unions of two (three) literals of ONE run-time type, in every order: "a union is accepted exactly when each member
+\* is" must not depend on a literal's position or on an earlier literal of the same type (ints, strs, bools, enum members,
+\* lists / tuples / dicts that differ in their element types)
+LitU2(a, b) == {Union(<<Known(a), Known(b)>>), Union(<<Known(b), Known(a)>>)}
+SameTypeLitUnions ==
+    LitU2(I1, I0) \cup LitU2(SA, SE) \cup LitU2(BT, BF) \cup LitU2(RED, GREEN)
+    \cup LitU2(Cont("list", <<I1>>), Cont("list", <<SA>>)) \cup LitU2(Cont("tuple", <<I1, SA>>), Cont("tuple", << >>))
+    \cup LitU2(Cont("dict", <<KV(SA, I1)>>), Cont("dict", <<KV(I1, SA)>>))
+    \cup {Union(<<Known(I1), Known(SA), Known(I0)>>), Union(<<Known(I0), Known(I1), Known(Obj("int", "2"))>>)}
+Space == (IF Depth = 1 THEN D1 ELSE D1 \cup D2Static) \cup TDTerms \cup SameTypeLitUnions
 
 Init == stage = "a" /\ ta = Never /\ tb = Never /\ ob = NONE
 ChooseA == stage = "a" /\ \E t \in Space : ta' = t /\ stage' = "b" /\ UNCHANGED <<tb, ob>>
